@@ -784,3 +784,21 @@ def campaign_c01(seed, tier):
             scs.append(sc_c01("c01-%d-%d" % (mtu, j // per), rng.randrange(1 << 30), mtu, i % 2, pairs[j:j + per], nrand if j < 16 * per else 0))
             i += 1
     return scs
+
+
+def c09_from_histories(hists, seed):
+    """G1 state cover: every mechanism state of ResponderImpl is 'before the Reset' once"""
+    import g1
+    rng = random.Random(seed)
+    scs = []
+    for i, h in enumerate(hists):
+        s = Script()
+        g1.boot(s, twins=True)
+        for f in h:
+            s.rx(1, f)
+        s.rx(1, reset(g1.M2_MC))
+        cont = characterisation(rng, own=g1.OWN_MC)
+        for f in cont:
+            s.rx([1, 2], f)
+        scs.append(Scenario("c09-g1-%d" % i, s.lines))
+    return scs
